@@ -78,6 +78,9 @@ MEM_HARNESSES = [
     [[("w", 1, "plain"), ("reset",)], [("w", 2, "tb"), ("serialize",)]],
     # a validate() that raises (bad message written first) racing with two other threads
     [[("w", 1, "badtyped"), ("validate",)], [("w", 2, "tb")], [("reset",)]],
+    # a thread carries on after its validate() raised: its later calls still exclude the other thread's
+    [[("w", 1, "badtyped"), ("validate",), ("reset",)], [("w", 2, "tb"), ("flush",)]],
+    [[("w", 1, "badtyped"), ("validate",), ("w", 3, "tb")], [("w", 2, "typed"), ("serialize",)]],
 ]
 FILE_HARNESSES = [
     [[1, 2], [3]],
